@@ -12,6 +12,40 @@ CLAIMED = {
          'Trusted: Coq kernel + vm_compute; hand-written model coq/C17/Model.v; correspondence harness props/C17.py; float rounding not '
          'modelled (1e-9 relative comparison, dyadic inputs so branch decisions are exact); no axioms (closed under the global context).',
          'DESIGN.md section 3 C17'),
+ 'C19': ('Coq proof of Network.sort (permutation, topological order, quiet) + verified certificate checker evaluated in Coq on every observed Network.from_units result; correspondence for sort/PathSource',
+         'Part 1: Network.sort is modelled loop for loop and proved for every path and every strict partial order reach (perm, topo, no '
+         'warning, input-order independence). Part 2: a Gallina checker for complete from_units results with soundness theorems against the '
+         'two clauses of C19; the real from_units output of every generated flowsheet is checked inside Coq. PARTIAL: the path-finding/joining '
+         'phase is validated per instance by the verified checker, not proved for all graphs (C19_from_units_statement vs _partial).',
+         'Trusted: Coq kernel + vm_compute; hand-written model coq/C19/Model.v; harness props/C19.py (graph encoding of real AbstractUnit '
+         'flowsheets); no axioms.',
+         'DESIGN.md section 3 C19, section 8'),
+ 'C05': ('Coq proof over an executable Q model of reaction application (Reaction/Parallel/Series/System, mol/wt, streams/arrays, other packages) + correspondence',
+         'Theorems for every linear functional a with a.S = 0 (atoms, mass): conserved by every reaction object, basis and material kind; '
+         'reactant consumed exactly X*feed; parallel/series/system definitions by induction over lists; basis equivalence; no negative flow on '
+         'normal return, clamp bounded by 1e-12. One clause refuted on the faithful model (phase-less reaction on a MultiStream) and recorded '
+         'as a known finding with a Coq witness.',
+         'Trusted: Coq kernel + vm_compute; hand-written model coq/C05/Model.v (+ C17 model); harness props/C05.py; float rounding not modelled; no axioms.',
+         'DESIGN.md section 3 C05, section 8'),
+ 'C06': ('Coq proof of dH formula and adiabatic/isothermal energy closure, oracle-parametric in the H/T solver + correspondence on an exact stub package',
+         'dH (mol, wt, latent table) and adiabatic closure Hnet\' = Hnet + Q for every solver satisfying H(solveT m h) = h; isothermal clause '
+         'proved at the reference state and as the general Kirchhoff identity elsewhere (PARTIAL by design, see DESIGN C06).',
+         'Trusted: Coq kernel + vm_compute; hand-written model coq/C06/Model.v over C05/C17 models; harness props/C06.py; oracle contract '
+         'solve_spec (H setter inverts H) is an assumption exercised by the correspondence; no axioms.',
+         'DESIGN.md section 3 C06, section 8'),
+ 'C03': ('Coq proof of conservation / non-negativity / light-heavy placement for the VLE, LLE, SLE wrappers for EVERY solver-oracle output + stubbed and recorded-solver correspondence',
+         'The VLE wrapper (all 11 specification pairs, single-chemical branches, clips, lever rule, PH/PS correction), LLE write-back and SLE '
+         'are modelled around an adversarial oracle; theorems hold for all oracle outputs. PARTIAL: lle_nonneg and vlle_conserve not proved; '
+         'reactive VLE out of scope.',
+         'Trusted: Coq kernel + vm_compute; hand-written model coq/C03/Model.v; harness props/C03.py with solver stubs installed from the '
+         'harness process; third-party solvers are oracles; no axioms.',
+         'DESIGN.md section 3 C03, section 8'),
+ 'C04': ('Coq proof that every Ok branch of the flash leaves T/P at the specified values (all oracles), Rachford-Rice closed form solves RR, RR monotone/unique root + correspondence',
+         'PARTIAL: T/P clause proved for every branch and oracle; binary RR closed form and uniqueness of the RR root proved; H/S reproduction, '
+         'phase-boundary rule, iso-fugacity fixed points and homogeneity are modelled and compared against the code but not yet theorems; '
+         '"V within solver resolution" is a third-party solver contract.',
+         'Trusted: Coq kernel + vm_compute; models coq/C03/Model.v, coq/C04/Model.v; harness props/C04.py; flexsolve contracts; no axioms.',
+         'DESIGN.md section 3 C04, section 8'),
 }
 NOT_YET = 'not claimed yet: model and proofs under construction (see DESIGN.md section 8 for status)'
 
